@@ -97,6 +97,22 @@ def check(facts):
                     else:
                         r.fail(key, "the index loop at line %s does not run over 0..len() of the bitmap's array (its end is computed): part of "
                                     "the array is skipped, so bytes of the other operand are missing from the result" % s["line"], facts.loc(fn, s["line"]))
+    # whole-array operations written with iterators (`a.iter_mut().zip(b.iter())`) visit every word unless a partial adaptor is used
+    PARTIAL = {"take", "skip", "step_by", "take_while", "skip_while", "chunks", "chunks_exact", "split_at", "get", "nth", "first", "last"}
+    for ty in TYPES:
+        for fn in sorted(n for n in facts.body_names() if re.search(r"bytesearch::%s::(bitor|bitnot|count_bits)$" % ty, n)):
+            b = facts.body(fn)
+            calls = [(t.get("callee") or "").split("::")[-1] for _, t in b.iter_calls()]
+            has_range = any(s["k"] == "assign" and s["rv"]["k"] == "agg" and str(s["rv"].get("adt", "")).endswith("ops::Range") for _, _, s in b.iter_stmts())
+            if has_range:
+                continue  # decided by the sweep clause above
+            nsweep += 1
+            key = "%s whole-array iteration" % fn
+            bad = sorted(set(calls) & PARTIAL)
+            if ("iter" in calls or "iter_mut" in calls or "into_iter" in calls) and not bad:
+                r.ok(key, "iterator over the whole array")
+            else:
+                r.fail(key, "the word-wise operation does not iterate the whole array (partial adaptors: %s)" % bad, facts.loc(fn))
     r.floor("geometry_instances", ngeom, 3)
     r.floor("index_sweeps", nsweep, 1)
     return r
